@@ -17,4 +17,13 @@ def dchoose (roll : α) (p : List α) : Option Nat :=
     | q :: rest => let sum := sum + q; if roll < sum / norm then some i else go rest sum (i + 1)
   go p 0.0 0
 
+/-- `esl_gam_Sample` (hand model; the only sampler with a redraw loop):
+    `do { x = esl_rnd_Gamma(r, tau); x = mu + x / lambda; } while (x == mu);` over the stream `ts` of variates the
+    generator yields (`none` = stream exhausted, the C loop would draw again). -/
+def gamSample (mu lambda : α) : List α → Option α
+  | [] => none
+  | t :: ts =>
+    let x := mu + t / lambda
+    if Num.eqb x mu = true then gamSample mu lambda ts else some x
+
 end EaselModel.Dist.Mix
